@@ -22,7 +22,7 @@ import (
 func init() {
 	register(&Rule{Name: "C20.options", Min: 3, Run: c20Options,
 		Doc: "the option switch of New, its usage text and the README list the same options; unknown options and duplicates are errors"})
-	register(&Rule{Name: "C20.intparse", Min: 2, Run: c20IntParse,
+	register(&Rule{Name: "C20.intparse", Min: 1, Run: c20IntParse,
 		Doc: "all integer options are parsed with the same (base, bitSize)"})
 	register(&Rule{Name: "C20.unregister", Min: 2, Run: c20Unregister,
 		Doc: "a table that was registered is deregistered on every error exit of table creation"})
@@ -197,22 +197,36 @@ func c20IntParse(c *Ctx) {
 		ok         bool
 	}
 	var sites []site
+	// New itself and the same-package helpers it calls (one level)
+	fns := []*ssa.Function{fn}
 	for _, call := range an.Calls(fn) {
-		f := call.Common().StaticCallee()
-		if f == nil || an.PkgPathOf(f) != "strconv" || !(f.Name() == "ParseInt" || f.Name() == "ParseUint") {
+		if cal := call.Common().StaticCallee(); cal != nil && an.PkgPathOf(cal) == core.ModPath && len(cal.Blocks) > 0 {
+			fns = append(fns, cal)
+		}
+	}
+	seenFn := map[*ssa.Function]bool{}
+	for _, f0 := range fns {
+		if seenFn[f0] {
 			continue
 		}
-		a := call.Common().Args
-		b, ok1 := a[1].(*ssa.Const)
-		z, ok2 := a[2].(*ssa.Const)
-		s := site{call: call, ok: ok1 && ok2}
-		if s.ok {
-			s.base, s.bits = b.Int64(), z.Int64()
+		seenFn[f0] = true
+		for _, call := range an.Calls(f0) {
+			f := call.Common().StaticCallee()
+			if f == nil || an.PkgPathOf(f) != "strconv" || !(f.Name() == "ParseInt" || f.Name() == "ParseUint") {
+				continue
+			}
+			a := call.Common().Args
+			b, ok1 := a[1].(*ssa.Const)
+			z, ok2 := a[2].(*ssa.Const)
+			s := site{call: call, ok: ok1 && ok2}
+			if s.ok {
+				s.base, s.bits = b.Int64(), z.Int64()
+			}
+			sites = append(sites, s)
 		}
-		sites = append(sites, s)
 	}
-	if len(sites) < 2 {
-		c.R.Unk(rule, "s3db.New: integer options", c.P.Pos(fn.Pos()), fmt.Sprintf("expected >= 2 strconv.ParseInt sites, found %d", len(sites)))
+	if len(sites) < 1 {
+		c.R.Unk(rule, "s3db.New: integer options", c.P.Pos(fn.Pos()), "no strconv.ParseInt site found in New or its helpers")
 		return
 	}
 	// majority / first as reference: all must agree
